@@ -36,14 +36,18 @@ func judgeEngine(sc updsim.Scenario, out *updsim.Out) kit.Result {
 	res := kit.Result{Key: sc.String(), Trivial: len(sc.Hist) == 0}
 	if len(w.Viol) > 0 {
 		v := w.Viol[0]
-		r := kit.Bad(v.Class, "%s\nscenario: %v\n%s", v.Msg, sc, w.Describe())
+		class := v.Class
+		if w.FailUsed {
+			class += ":after-failed-storage-write"
+		}
+		r := kit.Bad(class, "%s\nscenario: %v\n%s", v.Msg, sc, w.Describe())
 		r.Key = res.Key
 		if out != nil {
 			out.Stop = true
 		}
 		return r
 	}
-	if len(w.Errs) > 0 {
+	if len(w.Errs) > 0 && !w.FailUsed { // after an injected write failure the Run loops only log returned errors
 		r := kit.Bad("engine-error", "%v\nscenario: %v\n%s", w.Errs, sc, w.Describe())
 		for _, e := range w.Errs {
 			if strings.Contains(e, "too many API calls") {
@@ -143,6 +147,44 @@ func enginePlans(thorough bool) []enginePlan {
 		add(log, d, func(c *updsim.WorldCfg) { c.Untracked = []int{2} })
 	}
 	add([]string{"cmsg", "cmsg@2", "cmsg@2"}, d, func(c *updsim.WorldCfg) { c.Untracked = []int{2} })
+	// zero-count updates (updateWebPage / updateReadChannelInbox / updateChannelWebPage with pts_count 0)
+	zero := [][]string{{"msg", "web"}, {"msg", "web", "msg"}, {"cmsg", "cread"}, {"cmsg", "cread", "cmsg"}, {"cmsg", "cweb", "cdel"}}
+	if thorough {
+		zero = append(zero, []string{"msg", "web", "del2", "web"}, []string{"cmsg", "cread", "cmsg", "cweb"}, []string{"cmsg@2", "cread@2", "cmsg@2"})
+	}
+	for _, log := range zero {
+		for _, sl := range []int{0, 1} {
+			sl := sl
+			add(log, d, func(c *updsim.WorldCfg) { c.Server.Slice, c.Server.ChanSlice = sl, sl; c.Untracked = []int{2} })
+		}
+	}
+	// envelopes that carry several log entries in any order
+	cont := [][]string{{"msg", "del2"}, {"msg", "web", "msg"}, {"msg", "enc", "msg"}, {"cmsg", "cread"}, {"cmsg", "cmsg"}, {"cmsg@2", "cread@2"}, {"msg", "cmsg@2", "cmsg@2"}}
+	if thorough {
+		cont = append(cont, []string{"msg", "del2", "msg", "web"}, []string{"cmsg", "cread", "cmsg"}, []string{"cmsg@2", "cread@2", "cmsg@2"}, []string{"cmsg", "cdel", "cmsg@2", "cread@2"})
+	}
+	for _, log := range cont {
+		k := 3
+		if len(log) > 3 {
+			k = 2
+		}
+		add(log, d-1, func(c *updsim.WorldCfg) { c.Containers = k; c.Untracked = []int{2} })
+	}
+	// one StateStorage write of the history fails (transient error, nothing stored)
+	faulty := append(seqs([]string{"msg", "enc"}, 1, 2), []string{"msg", "del2", "msg"}, []string{"cmsg"}, []string{"cmsg", "cdel"}, []string{"cmsg@2", "cmsg@2"}, []string{"msg", "cmsg"})
+	if thorough {
+		faulty = append(faulty, seqs([]string{"msg", "del", "enc"}, 3, 3)...)
+		faulty = append(faulty, []string{"cmsg", "cmsg", "cdel"}, []string{"msg", "cmsg@2", "cdel@2"})
+	}
+	for _, log := range faulty {
+		for _, sl := range []int{0, 1} {
+			sl := sl
+			if sl >= len(log) && sl > 0 {
+				continue
+			}
+			add(log, d+1, func(c *updsim.WorldCfg) { c.Faults = true; c.Server.Slice, c.Server.ChanSlice = sl, sl; c.Untracked = []int{2} })
+		}
+	}
 	// channel sequences with explicit interleaving of the worker's queue and the main loop
 	chans := [][]string{{"cmsg"}, {"cmsg", "cmsg"}, {"cmsg", "cdel"}, {"cdel", "cmsg"}, {"msg", "cmsg"}, {"cmsg", "msg", "cmsg"}, {"cmsg", "cmsg@2"}}
 	if thorough {
@@ -162,7 +204,7 @@ func enginePlans(thorough bool) []enginePlan {
 func runEngine(c *kit.Ctx, fam *kit.Fam[engW]) {
 	c.Rule("Part 2, family engine: BFS over the real internalState + channelState (no goroutines: every select arm of the two Run loops is a step the harness calls) against a fake server holding a reference log. " +
 		"Events: push of any visible log entry (plain, seq-numbered), grow, main timer => getDifference, channel timer => getChannelDifference, updatesTooLong, updatePtsChanged, updateChannelTooLong with/without pts, and in the 'lazy' worlds one step of the main loop's internal queue / one step of a channel worker's queue as separate events " +
-		"(= every interleaving of the per-channel queues with the main loop at loop-iteration granularity). Oracle on every Handler.Handle call and every event: statement (i)-(iii) with 'covered' = position <= a state answered by a fetched difference.")
+		"(= every interleaving of the per-channel queues with the main loop at loop-iteration granularity). Further worlds: zero-count updates in the log (updateWebPage / updateReadChannelInbox / updateChannelWebPage with pts_count 0; exempt from (i)/(ii) as the statement says 'positive count'), envelopes carrying 2-3 log entries in every order ('pushc'), channels unknown to the client at start, and a fault dimension: the event 'fail j' makes the j-th following StateStorage write (any of SetPts/SetQts/SetChannelPts/SetDate/SetSeq/SetDateSeq/SetState, j=1..3, once per history) return an error and store nothing; the unchanged code logs such errors and continues, the oracle is the same under faults (errors returned to the Run loops are only logged there, so they are not judged). Oracle on every Handler.Handle call and every event: statement (i)-(iii) with 'covered' = position <= a state answered by a fetched difference.")
 	c.Assume("engine part: select arms of internalState.Run / channelState.Run transcribed 1:1 in the accessor; a channel difference is only started while the worker's queue is empty (otherwise channelState.sendOut's select may drop queued updates at random - left to the scheduler engine), real goroutines/timers are not run")
 	ps := enginePlans(c.Thorough())
 	var mu sync.Mutex
